@@ -554,7 +554,7 @@ def explore(ctx):
                 "%E exponent notation, explicit + sign); every configuration is one in-process `cij run-static` whose "
                 "stdout table is compared cell by cell with static_ref (order-independent least squares; mode-none rows in the file's order). "
                 "quick: <= 2 deviations from the default; thorough: <= 3 deviations over all 14 dimensions + the full product of the 9 data/option "
-                "dimensions (all 11 tables) in the default presentation + the full product of the 4 presentation dimensions x mode x n (101, 11) x table (3) x data "
+                "dimensions (7 of the 11 tables) in the default presentation + the full product of the 4 presentation dimensions x mode x n (101, 11) x table (3) x data "
                 "+ the full product table (11) x table columns x mode x data x table volumes x INPUT02 order. "
                 "Plus explicit pressure requests P_MIN in {0,-5,0.1} x DELTA_P in {0.1,0.3,0.7} x n in {30,53,61,101} (inside the fitted range) x table x "
                 "INPUT01 order; range-edge requests: last pressure = top - bound - c DELTA_P with P_MIN in {-5,0,10}, and first pressure = bottom + bound + c DELTA_P "
@@ -581,6 +581,7 @@ def explore(ctx):
         _, res = ctx.run_lattice(MOD, "run_case", dims, 3, part="lattice<=3", canon=canon, chunksize=2)
         allres += res
         core = OrderedDict((k, (list(v) if k not in PRESENTATION + ("compset",) else [v[0]])) for k, v in DIMS.items())
+        core["table"] = [t for t in DIMS["table"] if t in ("ortho9", "none", "ortho9+s", "cubic+s", "trigonal7+s", "tetragonal7+s", "monoclinic+s")]
         _, res = ctx.run_lattice(MOD, "run_case", core, None, part="full-product:data-and-options", canon=canon, chunksize=4)
         allres += res
         pres = OrderedDict((k, [v[0]]) for k, v in DIMS.items())
